@@ -44,7 +44,10 @@ type World struct {
 	Log   []*Entry
 
 	// Delay, if set, returns how long node n waits before answering its k-th command.
-	Delay func(node, k int) time.Duration
+	// Suspected: nodes that every other node reports with the flag "fail?" (PFAIL, one node's unconfirmed suspicion) in
+	// CLUSTER NODES; they are alive, reachable and own their slots
+	Suspected map[int]bool
+	Delay     func(node, k int) time.Duration
 	// DelayCmd, if set, returns the reply delay for a specific command (overrides Delay).
 	DelayCmd func(node int, args [][]byte) time.Duration
 	// Hostile, if set and returning non-nil, replaces the reply to a command by raw bytes.
@@ -467,6 +470,8 @@ func (w *World) renderNodesLocked(self *Node) string {
 		}
 		if n == self {
 			flags = "myself," + flags
+		} else if w.Suspected[n.Idx] && !n.Failed {
+			flags += ",fail?" // PFAIL: the answering node has not heard from it lately; it is alive and keeps its slots
 		}
 		link := "connected"
 		if n.Failed {
